@@ -248,6 +248,48 @@ def mk_provider(oid_is_path, case_sensitive=True, filter_events=False):
 
 
 MUTATORS = ("create", "upload", "rename", "delete", "mkdir")
+READERS = ("info_path", "info_oid", "download", "listdir", "hash_oid", "exists_oid", "exists_path")
+
+
+class MidStep:
+    """finer interleaving: a user operation happens INSIDE an engine step, just before the engine's k-th provider call of
+    that step (reads included) - the window between the engine looking at an object and acting on it"""
+
+    def __init__(self, lab):
+        self.lab = lab
+        self.k = 0
+        self.fn = None
+        self.n = 0
+        self.fired = None
+        self.depth = 0
+        for side, p in enumerate(lab.p):
+            for name in READERS + MUTATORS:
+                orig = getattr(p, name)
+                if name == "listdir":
+                    def w(*a, _o=orig, _n=name, _s=side, **kw):
+                        self.hit(_s, _n)
+                        yield from _o(*a, **kw)
+                else:
+                    def w(*a, _o=orig, _n=name, _s=side, **kw):
+                        self.hit(_s, _n)
+                        self.depth += 1
+                        try:
+                            return _o(*a, **kw)
+                        finally:
+                            self.depth -= 1
+                setattr(p, name, w)
+
+    def arm(self, k, fn):
+        self.k, self.fn, self.n, self.fired = k, fn, 0, None
+
+    def hit(self, side, name):
+        if self.fn is None or self.lab.user_mode or self.depth:
+            return
+        self.n += 1
+        if self.n == self.k:
+            fn, self.fn = self.fn, None
+            self.fired = (side, name)
+            fn()
 
 
 class Lab:
